@@ -7,7 +7,7 @@
 (*        known weakness of the decoder (all four are used for signatures only)                    *)
 (*   Built{ok, bad, tree}       what the library holds after the add_field calls                   *)
 (*   Encode{ok, toks, len, h1, h2}    bytes1: token list (see CodecOps), length and two hashes     *)
-(*   Decode{ok, tree}           Message::factory(bytes1)                                           *)
+(*   Decode{ok, tree, excid}    Message::factory(bytes1); excid names the exception it threw       *)
 (*   Reencode{ok, len, h1, h2}  encode of the decoded message                                      *)
 (*   Clone{ok, tree, len, h1, h2}     the clone and encode(clone)                                  *)
 (*   CopyLegal{ok, tree}   MoveLegal{ok, tree}    target message after the transfer                *)
@@ -85,7 +85,7 @@ MonStep(m, e) ==
              ELSE Pass(m2)
     ELSE IF e.e = "Decode" /\ m.prop = "C01" THEN
         IF ~e.ok THEN Fail(m, "decoding the encoded bytes failed",
-                           "decode_exception:" \o (IF m.hint # "" THEN m.hint ELSE DiffSig(m, m.built, m.want)))
+                           "decode_exception:" \o e.excid \o ":" \o (IF m.hint # "" THEN m.hint ELSE DiffSig(m, m.built, m.want)))
         ELSE IF SameMsg(e.tree, m.want) THEN Pass(m)
         ELSE Fail(m, "decoded message differs from the message that was built" \o DiffTag(e.tree, m.want),
                   "roundtrip:" \o (IF SameMsg(m.built, m.want) THEN "decode:" ELSE "build:") \o DiffSig(m, e.tree, m.want))
